@@ -1056,11 +1056,24 @@ class Interp:
                 o.fields[fd["name"]] = val(v) if self._is_construct(c) else copy_value(v)
             return o
         items = [copy_value(self.ev(c)) for c in kids(e)]
-        if t.endswith("]"):
-            return Arr(items)
-        if t.startswith("std::array<") and len(items) == 1 and isinstance(items[0], Arr):
-            return items[0]
-        if t.startswith("std::array<"):
+        if t.endswith("]") or t.startswith("std::array<"):
+            if t.startswith("std::array<") and not t.endswith("]") and len(items) == 1 and isinstance(items[0], Arr):
+                items = items[0].items
+            # elements without an initialiser are value-initialised (the list's array filler)
+            import re as _re
+            if t.endswith("]"):
+                m = _re.match(r"(.+)\[(\d+)\]$", t)
+                et, n = (m.group(1).strip(), int(m.group(2))) if m else (None, len(items))
+            else:
+                n = int(t.rstrip(">").rsplit(",", 1)[1].strip().rstrip("UL"))
+                et = t[len("std::array<"):].rsplit(",", 1)[0].strip()
+            while et is not None and len(items) < n:
+                if self.is_scalar_type(et):
+                    items.append(default_scalar())
+                elif int_type(et):
+                    items.append(0)
+                else:
+                    items.append(self.default_value(et))
             return Arr(items)
         if len(items) == 1:
             return items[0]
